@@ -17,6 +17,7 @@ PROPERTY THEOREMS ONLY (helper lemmas: MysyncProofs/Lemmas/LockServer.lean, Lock
 -/
 import MysyncModel.Dcs.LockSys
 import MysyncModel.App.Manager
+import MysyncModel.App.Maintenance
 import MysyncProofs.Lemmas.LockLemmas
 
 namespace C03
@@ -137,6 +138,26 @@ theorem no_lock_no_action (cfg : Manager.Cfg) (i : Manager.In) (h : i.connected 
   rcases h with h | h
   · simp [h]
   · cases hc : i.connected <;> simp [h]
+
+/-- the maintenance handler leaves the mode — i.e. writes the master key, repairs the cluster, rebuilds the active list,
+deletes the maintenance record — only if it was told it holds the lock; without the lock it only touches its own
+marker file and steps back to candidate -/
+theorem leaving_maintenance_needs_the_lock (maintFile : Bool) (maint : Manager.MaintRead) (i : Maintenance.LeaveIn) :
+    ∀ a ∈ (Maintenance.stateMaintenance maintFile maint false i).1, a = Maintenance.Act.writeMaintFile ∨ a = Maintenance.Act.removeMaintFile := by
+  intro a ha
+  unfold Maintenance.stateMaintenance Maintenance.tryLeave at ha
+  cases maint <;> cases maintFile <;> simp at ha <;> (try split at ha) <;> simp_all
+
+/-- the candidate and first-run handlers return a state and nothing else: their models have no action at all (their
+real counterparts are compared with these models on every run of the maintenance harness, and the simulation's
+monitor `C03:cluster-wide-action-without-lock` watches every statement and coordination write of every daemon) -/
+theorem candidate_only_changes_state (connected upd lock : Bool) (maint : Manager.MaintRead) :
+    Maintenance.stateCandidate connected upd maint lock = Manager.State.manager → lock = true := by
+  intro h
+  unfold Maintenance.stateCandidate at h
+  cases connected <;> cases upd <;> cases lock <;> cases maint <;> simp_all
+  all_goals (split at h <;> simp_all)
+
 
 -- non-vacuity: the guarded system does reach states with a holder, a cache entry and a hand-over
 example : holds (run twoClients [.beginAcquire 0, .prim 0, .prim 0]) 0 = true := by decide
